@@ -38,6 +38,12 @@ elseif a1 == 1 then
 end
 a1 = a1
 if a1 == 1.5 then end
+if a1 == a1 then end
+if a1 ~= a1 then end
+if a1 < a1 then end
+if a1 ~= 2.5 then end
+local tk1 = { kk = 1, kk = 2 }
+print(tk1)
 ---@class ZooCls1
 ---@field fa number
 local ZooCls1 = {}
